@@ -29,11 +29,12 @@ EXTENDS Integers, Sequences, FiniteSets, TLC, Json
 
 CONSTANTS MaxExpr, MaxNest, Shape, Emit
 
-CondPayloads == {"taut-num", "taut-str", "taut-ident", "sleep", "pg_sleep", "benchmark", "load_file", "xp_cmdshell"}
+\* same-literal comparisons include the ones whose literal text is empty or zero (what a value-less literal would also look like)
+CondPayloads == {"taut-num", "taut-str", "taut-ident", "taut-empty-str", "taut-zero", "sleep", "pg_sleep", "benchmark", "load_file", "xp_cmdshell"}
 \* UNION probing is a whole statement: it has no expression steps and no placement, only nesting
 StmtPayloads == {"union-null", "union-system", "union-null-system"}     \* the last one is both: two documented findings
 Payloads == CondPayloads \cup StmtPayloads
-Doc(p) == CASE p \in {"taut-num", "taut-str", "taut-ident"} -> [class |-> "TAUTOLOGY", sev |-> "CRITICAL"]
+Doc(p) == CASE p \in {"taut-num", "taut-str", "taut-ident", "taut-empty-str", "taut-zero"} -> [class |-> "TAUTOLOGY", sev |-> "CRITICAL"]
             [] p \in {"sleep", "pg_sleep", "benchmark"} -> [class |-> "TIME_BASED", sev |-> "HIGH"]
             [] p = "union-null" -> [class |-> "UNION_BASED", sev |-> "HIGH"]
             [] p \in {"union-system", "union-null-system"} -> [class |-> "UNION_BASED", sev |-> "CRITICAL"]
